@@ -326,8 +326,10 @@ where
             if is_terminal {
                 for (i, property) in properties.iter().enumerate() {
                     if ebits.contains(i) {
-                        // Races other threads, but that's fine.
-                        discoveries.insert(property.name, state_fp);
+                        // Never replace an existing discovery: once a property has one, its bit
+                        // is no longer maintained along paths (see the property loop above), so
+                        // a later terminal state may carry a stale bit.
+                        discoveries.entry(property.name).or_insert(state_fp);
                     }
                 }
             }
